@@ -17,7 +17,7 @@ RULE = ('scenario connect -> shell -> stat -> list -> pull -> push (+ variants w
         'operation in progress) in which the fault actually fired')
 ASSUMPTIONS = ['after a surfaced transport error only recovery is required, not continued use of the broken session',
                'a transport failure closes nothing by itself: the harness calls close() and connect() as a user would']
-EXPECT_PROBES = {'all': ['fault_timeout', 'fault_reset', 'fault_eof', 'fault_empty', 'fault_wtimeout', 'fault_epipe', 'fault_wdelivered', 'short_writes', 'c12_fault_in_connect', 'c12_fault_in_push', 'c12_op_survived_fault', 'c12_close_failed']}
+EXPECT_PROBES = {'all': ['fault_timeout', 'fault_reset', 'fault_eof', 'fault_empty', 'fault_wtimeout', 'fault_epipe', 'fault_wdelivered', 'short_writes', 'c12_fault_in_connect', 'c12_fault_in_push', 'c12_op_survived_fault', 'c12_close_failed', 'stale_cnxn_mid_session']}
 OWN = ('wrong-result', 'lock-held', 'recovery-failed', 'recovery-wrong-result', 'hang', 'no-termination', 'push-content', 'stale-state')
 KINDS = ['timeout', 'reset', 'eof', 'empty', 'wtimeout', 'epipe', 'wdelivered']
 KMAX = 120
@@ -80,7 +80,7 @@ def generate(seed, tier):
     faults = [{'pick': g.int(0, 1 << 30), 'kind': g.pick(KINDS)}]
     if g.chance(0.25):
         faults.append({'pick': g.int(0, 1 << 30), 'kind': g.pick(KINDS)})
-    return {'seed': seed, 'scn': scn, 'faults': faults, 'close_fault': g.chance(0.2)}
+    return {'seed': seed, 'scn': scn, 'faults': faults, 'close_fault': g.chance(0.2), 'stale_cnxn': g.int(0, 5) if g.chance(0.2) else None}
 
 
 class _View(object):
@@ -117,6 +117,9 @@ def evaluate(case, tapes=None):
         out['sample'] = {'note': 'fault index beyond the scenario\'s %d transport calls' % n}
         return out
     s2['config']['faults'] = fl
+    if case.get('stale_cnxn') is not None:
+        # the link keeps what the device had queued (USB does): the answer to the broken session's CNXN turns up in the middle of the new one
+        s2['device']['stale_cnxn'] = {'session_min': 2, 'after': case['stale_cnxn']}
     s2['config']['stop_on_error'] = True
     s2['config']['heal_on_reconnect'] = True
     if case.get('close_fault'):
